@@ -440,12 +440,43 @@ let cmd_ev (args : string list) : string =
     "ok " ^ hex_of_n (path_index (parse_sitems items) (nat_of_int (int_of_string k)))
   | _ -> "err badcmd"
 
+(* ---------- C12: undo / redo (flat model) ---------- *)
+let ustates : (string, ustate) Hashtbl.t = Hashtbl.create 8
+let parse_call (t : string) : ucall =
+  let body = String.sub t 1 (String.length t - 1) in
+  match t.[0] with
+  | 'i' -> (match String.split_on_char '.' body with [p; v] -> CIns (nat_of_int (int_of_string p), n_of_hex v) | _ -> failwith "bad ins")
+  | 'd' -> CDel (nat_of_int (int_of_string body))
+  | 's' -> (match String.split_on_char '.' body with [k; v] -> CSet (n_of_hex k, n_of_hex v) | _ -> failwith "bad set")
+  | 'r' -> CRem (n_of_hex body)
+  | _ -> failwith "bad call"
+let parse_calls (s : string) : ucall list = if s = "_" then [] else List.map parse_call (split_on ',' s)
+let print_ustate (s : ustate) : string =
+  let es = List.sort compare (List.map (fun (k, v) -> (int_of_n k, int_of_n v)) (live_entries s)) in
+  Printf.sprintf "seq=%s | map=%s | u=%d r=%d" (ptoks (uvisible s.seqc))
+    (String.concat "," (List.map (fun (k, v) -> Printf.sprintf "%x:%x" k v) es)) (List.length s.ustack) (List.length s.rstack)
+let cmd_undo (args : string list) : string =
+  match args with
+  | ["new"; r] -> Hashtbl.replace ustates r ustate0; "ok"
+  | ["step"; r; txns] ->
+    let s = Hashtbl.find ustates r in
+    let s' = uact s (AStep (List.map parse_calls (String.split_on_char '|' txns))) in
+    Hashtbl.replace ustates r s'; "ok " ^ print_ustate s'
+  | ["other"; r; calls] ->
+    let s = Hashtbl.find ustates r in
+    let s' = uact s (AOther (parse_calls calls)) in
+    Hashtbl.replace ustates r s'; "ok " ^ print_ustate s'
+  | ["undo"; r] -> let s = Hashtbl.find ustates r in let (s', b) = undo s in Hashtbl.replace ustates r s'; "ok " ^ print_ustate s' ^ " | changed=" ^ pb b
+  | ["redo"; r] -> let s = Hashtbl.find ustates r in let (s', b) = redo s in Hashtbl.replace ustates r s'; "ok " ^ print_ustate s' ^ " | changed=" ^ pb b
+  | _ -> "err badcmd"
+
 let dispatch (line : string) : string =
   match String.split_on_char ' ' (String.trim line) with
   | "R" :: args -> cmd_ranges args
   | "D" :: args -> cmd_doc args
   | "A" :: args -> cmd_aw args
   | "EV" :: args -> cmd_ev args
+  | "U" :: args -> cmd_undo args
   | "DEC" :: args -> cmd_dec args
   | "ENC" :: args -> cmd_enc args
   | ["PING"] -> "ok pong"
